@@ -314,4 +314,7 @@ func c06(c *Ctx) {
 		}
 		c.ruleHeldAt("C06.3/preconditions-in-lock", f, "callback", cb, "ImmuStore.mutex", true, nil)
 	}
+	// KV preconditions are evaluated by the same checkPreconditions call as the MVCC read-set: under the store mutex,
+	// on an index awaited up to the precommit frontier that was read inside that critical section
+	validationInCriticalSection(c, "C06.3/preconditions-on-current-index")
 }
